@@ -191,6 +191,19 @@ check('C16',
       COLLECT_NOTE, 'TLA+ visitor spec vs declarative inventory (TLC exhaustive), replay comparing static and dynamic collectors',
       'DESIGN.md section 5 (C16)', 'collect')
 
+check('C17',
+      'ModPath.tla builds directory trees below one search-path entry (node states: nothing, module file, plain directory, regular package, '
+      'package with __main__.py, directory+file of one name) and transcribes the candidate search with the __init__ chain check (OpResolve), the '
+      'walk up while __init__.py exists (OpSplit) and the pruned package walk (OpWalk); DeclResolve is the interpreter\'s regular-package rule. TLC '
+      'checks ResolveIsImport, RoundTrip, SplitIsDecl, WalkIsDecl on all 149k depth-2 trees over two names per level and a depth-3 family. Sampled '
+      'trees are materialised: for every dotted name (present, absent, __main__) modname_to_modpath must equal the specification and what '
+      'importlib\'s FileFinder finds part by part; every module path is converted back (modpath_to_modname, split_modpath); modules are imported by '
+      'path (name, sys.path restored, also when the module raises); package_modpaths must list exactly the package tree.',
+      'Trusted: TLC, importlib.machinery.FileFinder as oracle for the declarative rule (a disagreement between the two is a machinery error). '
+      'Regular-package semantics: PEP 420 namespace portions count as nothing. Names never contain __init__.',
+      'TLA+ resolution spec vs import-rule definition (TLC exhaustive), replay of TLC-generated trees on the file system with a FileFinder oracle',
+      'DESIGN.md section 5 (C17)', 'modpath')
+
 NOT_YET = ['C01', 'C02', 'C03', 'C04', 'C05', 'C07', 'C08', 'C09', 'C10', 'C11', 'C12', 'C13', 'C14', 'C15', 'C16',
            'C17', 'C18', 'C19', 'C20']
 
@@ -214,6 +227,7 @@ def main():
             {'name': 'docrun', 'path': 'specs/DocRun.tla', 'serves_properties': ['C01', 'C02', 'C03', 'C04', 'C09', 'C11', 'C12'], 'kind_free_text': 'TLA+ spec of DocTest.run (run loop, directive state, want buffer, except ladder) with declarative reference; MC_DocRun.tla alphabets; TLC + replay harness runlib.py'},
             {'name': 'docparse', 'path': 'specs/DocParse.tla', 'serves_properties': ['C01', 'C13', 'C14', 'C18', 'C19', 'C20'], 'kind_free_text': 'TLA+ spec of the docstring parser (labeller, grouping, packaging, re-parse round, run set) with declarative labelling; MC_DocParse.tla alphabets; TLC prints finished docstrings, harness/parselib.py replays them'},
             {'name': 'collect', 'path': 'specs/Collect.tla', 'serves_properties': ['C07', 'C08', 'C16'], 'kind_free_text': 'TLA+ spec of module collection (visitor stack machine, declarative inventory, file line list, docstring/doctest line arithmetic); MC_Collect.tla alphabets; harness/collectlib.py renders and compares'},
+            {'name': 'modpath', 'path': 'specs/ModPath.tla', 'serves_properties': ['C17', 'C07', 'C12'], 'kind_free_text': 'TLA+ spec of module name/path resolution, split and package walk over directory trees; MC_ModPath.tla; harness/c17.py materialises trees'},
             {'name': 'match', 'path': 'specs/Match.tla', 'serves_properties': ['C05', 'C06'], 'kind_free_text': 'TLA+ spec of output matching (normalisation pipeline, ellipsis) + MatchTrace.tla trace spec; TLC'},
         ],
         'checks': [CHECKS[k] for k in sorted(CHECKS)],
